@@ -561,6 +561,78 @@ Proof.
   apply Hs. exact He.
 Qed.
 
+(* ---------- the reload handler's order (C12) ---------- *)
+Lemma wstate_after_app s a b : wstate_after s (a ++ b) = wstate_after (wstate_after s a) b.
+Proof. revert s. induction a as [|o r IH]; intros s; [reflexivity|]. cbn [app wstate_after]. apply IH. Qed.
+
+Lemma cfind_after_worker_reload s w name :
+  cfind w name (w_cache (fst (wstep s (WWorkerReload w)))) = None.
+Proof.
+  cbn [wstep fst w_cache]. induction (w_cache s) as [|[[w2 n2] v] r IH]; [reflexivity|].
+  cbn [filter fst]. destruct (N.eqb w2 w) eqn:E; cbn [negb]; [exact IH|].
+  cbn [cfind]. rewrite N.eqb_sym, E. cbn [andb]. exact IH.
+Qed.
+
+Lemma no_reload_app a b : no_reload a -> no_reload b -> no_reload (a ++ b).
+Proof. intros Ha Hb o Ho. apply in_app_or in Ho. destruct Ho; [apply Ha|apply Hb]; assumption. Qed.
+
+(* ClearDynsamplers before the signals: every worker runs its reload branch after the registry was
+   cleared, so (with no further reload) any two workers that have processed the reload and then need
+   the sampler for a key get the same instances — whatever the workers did between the handler's
+   two steps ([early], where no reload branch can run yet) and afterwards. *)
+Theorem clear_first_workers_agree s c early mid1 mid2 w1 w2 name :
+  no_reload early -> no_reload mid1 -> no_reload mid2 ->
+  let s0 := wstate_after s (reload_schedule true c early mid1) in
+  let sA := fst (wstep s0 (WWorkerReload w1)) in
+  let r1 := wstep sA (WGet w1 name) in
+  let sB := fst (wstep (wstate_after (fst r1) mid2) (WWorkerReload w2)) in
+  snd (wstep sB (WGet w2 name)) = snd r1.
+Proof.
+  intros He H1 H2 s0 sA r1 sB. subst r1 sB.
+  pose proof (workers_agree sA w1 w2 name (mid2 ++ [WWorkerReload w2])) as H.
+  cbv zeta in H. rewrite wstate_after_app in H. cbn [wstate_after] in H.
+  apply H.
+  - apply cfind_after_worker_reload.
+  - apply no_reload_app; [exact H2|]. intros o [<-|[]] c0. discriminate.
+  - apply cfind_after_worker_reload.
+Qed.
+
+(* the same for the order found in the source *)
+Theorem real_reload_workers_agree s c early mid1 mid2 w1 w2 name :
+  no_reload early -> no_reload mid1 -> no_reload mid2 ->
+  let s0 := wstate_after s (real_reload_schedule c early mid1) in
+  let sA := fst (wstep s0 (WWorkerReload w1)) in
+  let r1 := wstep sA (WGet w1 name) in
+  let sB := fst (wstep (wstate_after (fst r1) mid2) (WWorkerReload w2)) in
+  snd (wstep sB (WGet w2 name)) = snd r1.
+Proof.
+  unfold real_reload_schedule.
+  rewrite (eq_refl : GenC12.reload_clear_before_signal = true).
+  apply clear_first_workers_agree.
+Qed.
+
+(* Signals before ClearDynsamplers: worker 0 runs its reload branch and re-creates its sampler
+   between the two steps; it obtains the instance of the old generation and, having consumed its
+   signal, keeps it, while worker 1 (reload branch after the clear) gets a new one. *)
+Definition swap_def : ddef := {| dd_type := 3; dd_params := [10; 0; 0; 0]; dd_fields := [u "a"] |}.
+Definition swap_cfg : econfig := [(u "prod", EDyn swap_def); (u "__default__", EDet)].
+Definition swap_history : list wop :=
+  [WGet 0 (u "prod"); WGet 1 (u "prod")] ++
+  reload_schedule false swap_cfg [WWorkerReload 0; WGet 0 (u "prod")] [WWorkerReload 1; WGet 1 (u "prod")] ++
+  [WGet 0 (u "prod"); WGet 1 (u "prod")].
+
+Lemma signal_first_refuted :
+  let out := wrun {| w_f := finit; w_cfg := swap_cfg; w_cache := [] |} swap_history in
+  nth 7 out [] = [Some 0%N] /\ nth 8 out [] = [Some 1%N] /\
+  (* with the clear first, the same worker activity ends with both workers on the new instance *)
+  let ok := wrun {| w_f := finit; w_cfg := swap_cfg; w_cache := [] |}
+                 ([WGet 0 (u "prod"); WGet 1 (u "prod")] ++
+                  reload_schedule true swap_cfg [WGet 0 (u "prod")]
+                                  [WWorkerReload 0; WGet 0 (u "prod"); WWorkerReload 1; WGet 1 (u "prod")] ++
+                  [WGet 0 (u "prod"); WGet 1 (u "prod")]) in
+  nth 8 ok [] = [Some 1%N] /\ nth 9 ok [] = [Some 1%N].
+Proof. vm_compute. repeat split; reflexivity. Qed.
+
 (* ---------- throughput goals (C13) ---------- *)
 Definition k_ucs (k : rkey) : bool := use_cluster (k_type k) (k_params k).
 Definition k_goal (k : rkey) : Z := goal_cfg (k_type k) (k_params k).
@@ -762,6 +834,7 @@ Lemma gen_c12_ok :
   GenC12.downstream_prefix_shape = true /\ GenC12.downstream_marked = true /\
   GenC12.toplevel_marked = true /\ GenC12.worker_cache_shape = true /\
   GenC12.worker_reload_clears_cache = true /\
+  GenC12.reload_clear_before_signal = true /\ GenC12.reload_signal_before_clear = false /\
   param_names 3 = ["SampleRate"; "ClearFrequency"; "MaxKeys"; "UseTraceLength"]%string /\
   param_names 4 = ["GoalSampleRate"; "AdjustmentInterval"; "Weight"; "AgeOutValue"; "BurstMultiple";
                    "BurstDetectionDelay"; "MaxKeys"; "UseTraceLength"]%string /\
